@@ -381,7 +381,7 @@ pub fn family_positions(fam: Family, level: u8) -> Vec<Position> {
                                 continue;
                             }
                             out.push(p.clone());
-                            for &x in &extras {
+                            for &x in (if level == 0 { &extras[..1] } else { &extras[..] }).iter().chain(if level == 0 { extras[3..].iter() } else { extras[..0].iter() }) {
                                 for s in 0..64u8 {
                                     let mut q = p.clone();
                                     if place(&mut q, s, Col::W, x) {
@@ -417,7 +417,7 @@ pub fn family_positions(fam: Family, level: u8) -> Vec<Position> {
                                 continue;
                             }
                             out.push(p.clone());
-                            for &x in &extras {
+                            for &x in (if level == 0 { &extras[..1] } else { &extras[..] }).iter().chain(if level == 0 { extras[3..].iter() } else { extras[..0].iter() }) {
                                 for s in 0..64u8 {
                                     let mut q = p.clone();
                                     if place(&mut q, s, Col::W, x) {
